@@ -142,7 +142,34 @@ def descr(v):
     return type(v).__name__
 
 
+def aliased(ctx, cname):
+    """x op x with the SAME object on both sides (two names for one trajectory): element i of the result is the
+    single-valued operation on element i with itself, a list of M booleans for == and !="""
+    top = 6 if ctx.tier == 'quick' else 8
+    for (opn, opf), m in itertools.product(OPS, range(1, top)):
+        cid = 'C09/%s/%s/alias/m=%d' % (cname, opn, m)
+        if not ctx.want(cid):
+            continue
+        lk = [2 + j for j in range(m)]
+        site = '%s.%s' % (cname, {'*': 'mul', '/': 'div', '+': 'add', '-': 'sub', '==': 'eq', '!=': 'ne'}[opn])
+        P = dict(cls=cname, op=opn, m=m, n=m, alias=1)
+        ok1, r1 = call(opf, build(cname, lk[:1]), build(cname, lk[:1]))
+        if not ok1:
+            continue
+        ctx.case(cid, key=cid, trivial=(m == 1))
+        X = build(cname, lk)
+        ok, res = call(opf, X, X)
+        if not ok:
+            ctx.fail(cid, site, 'raises:' + type(res).__name__, P, '%s[%d] %s itself raised %r' % (cname, m, opn, res))
+            continue
+        singles = [opf(build(cname, [kk]), build(cname, [kk])) for kk in lk]
+        compare(ctx, cid, site, P, res, singles, m)
+        if opn in ('==', '!=') and m > 1 and not (isinstance(res, list) and len(res) == m and all(isinstance(x, (bool, np.bool_)) for x in res)):
+            ctx.fail(cid, site, 'mismatch', dict(P, what='type'), 'x %s x on %d values gives %s, not a list of %d booleans' % (opn, m, descr(res), m))
+
+
 def binary(ctx, cname):
+    aliased(ctx, cname)
     top = 6 if ctx.tier == 'quick' else 8
     for (opn, opf), m, n, vs in itertools.product(OPS, range(1, top), range(1, top), (0, 1) if ctx.tier == 'quick' else (0, 1, 2, 3)):
         cid = 'C09/%s/%s/m=%d/n=%d/set=%d' % (cname, opn, m, n, vs)
